@@ -1,13 +1,13 @@
 package main
 
 import (
-	"sync"
 	"fmt"
 	"go/token"
 	"go/types"
 	"os"
 	"sort"
 	"strings"
+	"sync"
 
 	"golang.org/x/tools/go/packages"
 	"golang.org/x/tools/go/ssa"
@@ -47,9 +47,10 @@ type Prog struct {
 	// and instantiations, sorted by position.
 	Funcs []*ssa.Function
 
-	nFiles int
-	nCanon int // operand pairs reordered by canonicaliseOperands
-	alias  *aliasTable // pinned identifier -> identifier in this tree (renamed unexported objects)
+	nFiles   int
+	nCanon   int         // operand pairs reordered by canonicaliseOperands
+	alias    *aliasTable // pinned identifier -> identifier in this tree (renamed unexported objects)
+	expanded []string    // call sites of new single-expression helpers that were expanded before the build
 }
 
 func goEnv(goarch string) []string {
@@ -83,6 +84,10 @@ func goEnv(goarch string) []string {
 // Load loads the ten packages from repoDir's working tree. overlay maps absolute file names to replacement
 // contents (used for self-validation variants only).
 func Load(repoDir, goarch string, overlay map[string][]byte) (p *Prog, err error) {
+	return loadRound(repoDir, goarch, overlay, 0, nil)
+}
+
+func loadRound(repoDir, goarch string, overlay map[string][]byte, round int, expanded []string) (p *Prog, err error) {
 	defer func() {
 		if r := recover(); r != nil {
 			if ie, ok := r.(infraError); ok {
@@ -129,6 +134,23 @@ func Load(repoDir, goarch string, overlay map[string][]byte) (p *Prog, err error
 	if os.Getenv("SONICSA_NOALIAS") == "" {
 		if pinned := loadPinnedSymtab(); pinned != nil {
 			p.alias = resolveRenames(pinned, collectSymbols(p.Pkgs))
+			// new single-expression helpers are expanded at their call sites (normalize.go); at most three rounds
+			if round < 3 && os.Getenv("SONICSA_NONORMALISE") == "" {
+				if extra, log := normaliseSources(pkgs, p.alias, pinned, overlay); extra != nil {
+					merged := map[string][]byte{}
+					for k, v := range overlay {
+						merged[k] = v
+					}
+					for k, v := range extra {
+						merged[k] = v
+					}
+					if q, err2 := loadRound(repoDir, goarch, merged, round+1, append(expanded, log...)); err2 == nil {
+						return q, nil
+					}
+					// the expansion does not type-check (an implicit conversion went missing, say): analyse the tree as it is
+				}
+			}
+			p.expanded = expanded
 			for _, pkg := range p.Pkgs {
 				aliasByPkg.Store(pkg.Types, p.alias)
 				sc := pkg.Types.Scope()
